@@ -83,6 +83,11 @@ def run(prop, tier, replay=None):
     if replay:
         with open(replay) as f:
             body = json.load(f)
+        if body["replay"].get("stage") == "updatecmd":
+            import p_updatecmd
+            p_updatecmd.stage(prop, tier, work, V, cov, s, replay_body=body["replay"])
+            code, nviol, known = V.finish()
+            return code
         vectors = [body["replay"]["vector"]]
         states = trans = 0
     else:
@@ -112,7 +117,7 @@ def run(prop, tier, replay=None):
     # makes the record's observation fail (idempotent / reparse_passes), so that TLC reports it
     rnd = random.Random(s * 17 + 3)
     good = [r for r in records if r["obs"]["result"] == "ok" and r["obs"]["decomposed"] and r["obs"]["idempotent"] and r["obs"]["reparse_passes"]
-            and all(sg["term"] for sg in r["segs"]) and not any("@U@" in l["txt"] or "a\u00fc" in l["txt"] for l in r["lines"])]
+            and all(sg["term"] for sg in r["segs"]) and not any("@U@" in l["txt"] or "a\u00fc" in l["txt"] or l["txt"].startswith("> > ") for l in r["lines"])]   # (`> c4` as a shell line is a redirection that resets the exit code)
     sample = good if replay else rnd.sample(good, min(len(good), 60 if tier == "quick" else 800))
     with concurrent.futures.ThreadPoolExecutor(max_workers=min(NCPU, 12)) as ex:
         for r, e in zip(sample, ex.map(e2e_update, sample)):
@@ -154,6 +159,11 @@ def run(prop, tier, replay=None):
         V.violation(f"{why}:{kinds}:outcomes={','.join(r['outcomes'])}", WHAT,
                     {"vector": vec_of.get(rid // 100), "outcomes": r["outcomes"], "document": [l["txt"] for l in r["lines"]],
                      "updated": r["updated"], "observed": o, "escaper": r["escaper"]})
+    # the command at file level: specs/UpdateCommand.tla against runs of the real binary
+    ncmd = 0
+    if not replay:
+        import p_updatecmd
+        ncmd = p_updatecmd.stage(prop, tier, work, V, cov, s)
     code, nviol, known = V.finish()
     if not replay:
         cov.update({
@@ -167,5 +177,5 @@ def run(prop, tier, replay=None):
         write_evidence(prop, tier, "model_checking", cov,
                        ["TLC", "documents that the parser rejects (or reads differently from the reference) are C06's subject and are not used here",
                         "line terminators are normalised (scrut documents that it never writes CRLF)"], time.time() - t0, nviol)
-    log(f"{prop}: {validated} updates validated by TLC, {nviol} violation(s), {time.time()-t0:.0f}s")
+    log(f"{prop}: {validated} updates and {ncmd} runs of the update command validated by TLC, {nviol} violation(s), {time.time()-t0:.0f}s")
     return code
